@@ -54,7 +54,7 @@ def draw_cfg(rng, profile, tier):
                              if not big else [6, 8, 12, 14]),
         'readers': int(rng.random() < p.get('p_readers', 0.6)),
         'faults': rng.choice(p.get('faults', ['none', 'none', 'F1', 'F2',
-                                              'all'])),
+                                              'F6', 'all'])),
         'md_rate': rng.choice([0.0, 0.5, 1.0]),
         'sparsity': rng.choice([0.2, 0.5, 0.8, 1.0]),
     }
@@ -201,9 +201,15 @@ class Gen:
                 ev.update(fam=rng.randrange(CB.N_PRED),
                           salt=rng.randrange(100), fault=self._fault(n))
             mutating_inplace = bool(ev['inp'])
+            if cfg['faults'] in ('F6', 'all') and rng.random() < 0.25:
+                ev['f6'] = 1
+                if rng.random() < 0.6:       # aim at emptying the table
+                    ev.update(by=0, mask=(1 << n) - 1, inv=1, unk=0)
         elif name == 'remove_empty':
             ev.update(ax=rng.randrange(3), inp=int(rng.random() < 0.5),
-                      twin=int(rng.random() < 0.4))
+                      twin=int(rng.random() < 0.4),
+                      f6=int(cfg['faults'] in ('F6', 'all') and
+                             rng.random() < 0.25))
             mutating_inplace = bool(ev['inp'])
         elif name == 'head':
             ev.update(n=rng.choice([1, 1, 2, 3, 5, 20]),
